@@ -56,7 +56,7 @@ def run(tier, replay=None):
                 "every rotation of the history, in both open modes, with size / pre / post triggers, followed by "
                 "every continuation; crash images are directory copies taken inside the hook callback and a new "
                 "appender is built over the copy; non-trivial = perturbed behaviours in which a rotation happened")
-    run.assumptions = ["compress step is atomic; death inside gzip output and the cross-mount copy fallback are out of scope",
+    run.assumptions = ["compress step is atomic; death inside gzip output or inside the cross-mount copy fallback is out of scope (the fallback itself runs in the cross-mount materialisation when /dev/shm is a separate filesystem)",
                        "crash = process death with the page cache intact (log4rs never fsyncs)",
                        "fault hooks: rotate.shift(i) / rotate.final fail_points return an io::Error"]
     return run.finish()
